@@ -1,0 +1,97 @@
+//go:build verif
+
+package erro
+
+// Contracts for the error types (property C13: typed causes, walkable cause chains), checked by
+// /verif/bin/govc; comment-only.
+
+//@ trusted func trace
+//@   assigns nothing
+//@   fresh
+
+//@ func NewArgNotFoundError
+//@   props C13
+//@   assigns nothing
+//@   ensures typed_as_named: result != nil && typeof(result) == typeid(*ArgNotFound)
+
+//@ func NewArgsNotMatchError
+//@   props C13
+//@   assigns nothing
+//@   ensures typed_as_named: result != nil && typeof(result) == typeid(*ArgsNotMatch)
+
+//@ func NewFieldNotFoundError
+//@   props C13
+//@   assigns nothing
+//@   ensures typed_as_named: result != nil && typeof(result) == typeid(*FieldNotFound)
+
+//@ func NewFuncNotFoundError
+//@   props C13
+//@   assigns nothing
+//@   ensures typed_as_named: result != nil && typeof(result) == typeid(*FuncNotFound)
+
+//@ func NewFuncNotFoundErrorWithSuggestion
+//@   props C13
+//@   assigns nothing
+//@   ensures typed_as_named: result != nil && typeof(result) == typeid(*FuncNotFound)
+
+//@ func NewIllegalParamError
+//@   props C13
+//@   assigns nothing
+//@   ensures typed_as_named: result != nil && typeof(result) == typeid(*IllegalParam)
+//@   ensures cause_chain_walkable: implements(result, Traceable)
+
+//@ func NewIllegalParamCError
+//@   props C13
+//@   assigns nothing
+//@   ensures typed_as_named: result != nil && typeof(result) == typeid(*IllegalParam)
+//@   ensures cause_chain_walkable: implements(result, Traceable)
+
+//@ func NewIllegalCallError
+//@   props C13
+//@   assigns nothing
+//@   ensures typed_as_named: result != nil && typeof(result) == typeid(*IllegalParam)
+//@   ensures cause_chain_walkable: implements(result, Traceable)
+
+//@ func NewIllegalParamTypeError
+//@   props C13
+//@   assigns nothing
+//@   ensures typed_as_named: result != nil && typeof(result) == typeid(*IllegalParamType)
+
+//@ func NewIllegalStatusError
+//@   props C13
+//@   assigns nothing
+//@   ensures typed_as_named: result != nil && typeof(result) == typeid(*IllegalStatus)
+
+//@ func NewReturnParamNotFoundError
+//@   props C13
+//@   assigns nothing
+//@   ensures typed_as_named: result != nil && typeof(result) == typeid(*ReturnParamNotFound)
+
+//@ func NewReturnsNotMatchError
+//@   props C13
+//@   assigns nothing
+//@   ensures typed_as_named: result != nil && typeof(result) == typeid(*ReturnsNotMatch)
+
+//@ func NewTraceableErrors
+//@   props C13
+//@   assigns nothing
+//@   ensures typed_as_named: result != nil && typeof(result) == typeid(*TraceableError)
+//@   ensures cause_chain_walkable: implements(result, Traceable)
+
+//@ func NewTraceableErrorc
+//@   props C13
+//@   assigns nothing
+//@   ensures typed_as_named: result != nil && typeof(result) == typeid(*TraceableError)
+//@   ensures cause_chain_walkable: implements(result, Traceable)
+
+//@ func NewTraceableError
+//@   props C13
+//@   assigns nothing
+//@   ensures typed_as_named: result != nil && typeof(result) == typeid(*TraceableError)
+//@   ensures cause_chain_walkable: implements(result, Traceable)
+
+//@ func NewTypeNotFoundError
+//@   props C13
+//@   assigns nothing
+//@   ensures typed_as_named: result != nil && typeof(result) == typeid(*TypeNotFound)
+
